@@ -87,7 +87,9 @@ def _start_state_path(ctx, rep):
                     excl = m2.group(3)
                     defn = next((ast.unparse(a.value) for a in ast.walk(f) if isinstance(a, ast.Assign) and ast.unparse(a.targets[0]) == excl), "")
                     jt = next((ast.unparse(a.value) for a in ast.walk(f) if isinstance(a, ast.Assign) and ast.unparse(a.targets[0]) == "jumped_to"), "")
-                    ok2 = defn == f"[x for x in {m2.group(2)} if x is self.starting_state or x in jumped_to]" and \
+                    ok2 = defn in (f"[x for x in {m2.group(2)} if x is self.starting_state or x in jumped_to]",
+                                   # F-114: ... and a state that goes on matching is not left for good when it is entered either
+                                   f"[x for x in {m2.group(2)} if x is self.starting_state or x in jumped_to or any((not t.error_handling for t in x.transitions))]") and \
                         jt == "set((target for transition in self.all_transitions() for action in transition.actions for sub in action.all_subactions() for target in sub.get_target_override_targets()))" and \
                         step is not None and any(isinstance(i, ast.If) and ast.unparse(i.test) == excl and
                                                  any(isinstance(x, ast.Call) and ast.unparse(x.func) == "self.append_action_step" and [ast.unparse(y) for y in x.args] == [ast.unparse(c.args[0]), excl]
@@ -273,7 +275,8 @@ def run(ctx, rep, tier):
          "chaining a strict action into a re-entrant state is refused", "a strict action chained onto several incoming transitions of a state that can be re-entered runs more than once"),
         ("RegexMatch.convert", r"^strict_actions and any\(\(?x\.transitions for x in self\.dfa_2\.finishing_states\)?\)$", "strict_actions = timing_strict_actions(self.finish_actions)",
          "strict finish action on an open-ended regex is refused", "a strict finish action on a regex whose end states continue would run once per extra byte"),
-        ("CaseNode.convert", r"^len\(all_transitions_empty\) != 1 and strict_actions$", "strict_actions = timing_strict_actions(self.case_match_actions[true_backref])",
+        # (`!= 1` while every finish state was attached on entry; `> 1` since only the states the decider is left for good in are - there may be none: C08.f)
+        ("CaseNode.convert", r"^len\(all_transitions_empty\) (!= 1|> 1) and strict_actions$", "strict_actions = timing_strict_actions(self.case_match_actions[true_backref])",
          "strict action of an action-only clause reached by several transitions is refused", "a strict action-only clause attached to several transitions runs more than once"),
     ]
     for fq, rx, assign, what, msg in sites:
